@@ -150,6 +150,15 @@ def case_dominates(ctx, c):
     o1 = g.integers(0, 3, d).astype(float) if lat else g.normal(size=d)
     o2 = o1.copy() if g.random() < 0.2 else (g.integers(0, 3, d).astype(float) if lat else g.normal(size=d))
     ocls = ""
+    if not lat and g.random() < 0.3:
+        # strict improvements that a scalarisation (e.g. the sum of the objectives) cannot see: one unit in the last place, or
+        # objectives of wildly different magnitude
+        o2 = o1.copy(); j_ = int(g.integers(d))
+        if g.random() < 0.5 and abs(o1[j_]) > 1e-200:
+            o2[j_] = numpy.nextafter(o1[j_], numpy.inf if g.random() < 0.5 else -numpy.inf); ocls = "/one unit in the last place apart"
+        elif d >= 2:
+            o1 = o1.copy(); k_ = (j_ + 1) % d
+            o1[k_] = o2[k_] = float(g.choice([1e17, -1e17, 3e18])); o2[j_] = o1[j_] + float(g.choice([1.0, -1.0])); ocls = "/objectives of very different magnitude"
     if lat and g.random() < 0.4:
         dt = str(g.choice(["int8", "int32", "int64", "uint8", "uint16", "uint32", "uint64", "float32"]))
         o1 = o1.astype(dt); o2 = o2.astype(dt)
